@@ -86,6 +86,8 @@ def scope(job):
                 fls[key] = c
             return State(preds, fls, is_init=True)
 
+        # wave 3: job["noobj"] -- the Operators are built WITHOUT an object table (problem_objects=None, not the empty dict)
+        noobj = bool(job.get("noobj"))
         answers = []
         checked = 0
         for row in job["rows"]:
@@ -94,7 +96,7 @@ def scope(job):
             for n in range(n_states(job, row)):
                 held, digits = decode(job, row, n)
                 try:
-                    op = Operator(action, domain, list(row["args"]), problem.objects)
+                    op = Operator(action, domain, list(row["args"]), None if noobj else problem.objects)
                     ch = "T" if op.is_applicable(make_state(held, digits)) else "F"
                 except Exception:  # noqa
                     ch = "E"
@@ -110,7 +112,7 @@ def scope(job):
                         st2 = State({k: set(v) for k, v in pr2.initial_state_predicates.items()},
                                     {k: v.copy() for k, v in pr2.initial_state_fluents.items()}, is_init=True)
                         try:
-                            ch2 = "T" if Operator(action, domain, list(row["args"]), pr2.objects).is_applicable(st2) else "F"
+                            ch2 = "T" if Operator(action, domain, list(row["args"]), None if noobj else pr2.objects).is_applicable(st2) else "F"
                         except Exception:  # noqa
                             ch2 = "E"
                         a, b = read_state_text(st2.serialize()), read_state_text(make_state(held, digits).serialize())
@@ -127,3 +129,46 @@ def scope(job):
     finally:
         dpath.unlink()
         ppath.unlink()
+
+
+# ---------------------------------------------------------------------------------------------------------------
+# wave 3: a generated world answered by Operators built WITHOUT an object table (problem_objects=None)
+def world_noobj(job):
+    """job as ops_core.world; only the applicability is observed (the successor is C03's)"""
+    out = {"nums": number_table(job["domain_text"])}
+    dpath = write_tmp(job["domain_text"], ".pddl")
+    try:
+        try:
+            domain = DomainParser(dpath).parse_domain()
+            from ops_core import vocab
+            out["vocab"] = vocab(domain)
+        except (RecursionError, Exception) as e:  # noqa
+            out["parse_raised"] = exc(e)
+            return out
+        res = []
+        for pr in job["probes"]:
+            ppath = write_tmp(pr["problem_text"], ".pddl")
+            try:
+                try:
+                    problem = ProblemParser(ppath, domain).parse_problem()
+                except Exception as e:  # noqa
+                    res.append({"problem_raised": exc(e)})
+                    continue
+                action = domain.actions.get(pr["action"])
+                r = {"succ": {"raised": "not-observed"}}
+                if action is None:
+                    r["app"] = exc(KeyError(pr["action"]))
+                else:
+                    state = State({k: set(v) for k, v in problem.initial_state_predicates.items()},
+                                  {k: v.copy() for k, v in problem.initial_state_fluents.items()}, is_init=True)
+                    try:
+                        r["app"] = {"value": bool(Operator(action, domain, list(pr["args"]), None).is_applicable(state))}
+                    except Exception as e:  # noqa
+                        r["app"] = exc(e)
+                res.append(r)
+            finally:
+                ppath.unlink()
+        out["probes"] = res
+        return out
+    finally:
+        dpath.unlink()
